@@ -54,3 +54,28 @@ LEMMAS = [dict(
 NOT_CARRIED += ["that run_components establishes the local rule LOC for every processed component is not an obligation yet: "
                 "the lemma C04-L1-step is the inductive step over the level function only (induction on levels is the meta-step)",
                 "determinism and locality of process() are hypotheses of the lemma (bodies are assumed deterministic)"]
+
+
+def bounded(check):
+    """bounded stand-in / native witness search for the scheduling variants that are not under contract (run_incremental, run_all with a pool)"""
+    import json, os, subprocess
+    n = 3 if check.tier == "quick" else 4
+    here = os.path.dirname(os.path.dirname(os.path.abspath(__file__)))
+    p = subprocess.run(["/venv/bin/python", os.path.join(here, "bounded", "dr_scheduling.py"), check.repo.root, str(n)],
+                       stdout=subprocess.PIPE, stderr=subprocess.PIPE, universal_newlines=True, timeout=3000)
+    line = (p.stdout.strip().splitlines() or ["{}"])[-1]
+    try:
+        info = json.loads(line)
+    except ValueError:
+        info = {"error": (p.stderr or p.stdout)[-400:]}
+    out = dict(name="single pass == one sub-graph at a time == 3-thread pool; sub-graphs partition the components; same digest under 4 hash seeds",
+               level="bounded", bound="every graph of <= %d plain components (none / required / optional per earlier component) x outcomes (value, crash)" % n,
+               result=info, violation=(p.returncode == 1), error=(p.returncode not in (0, 1)))
+    if p.returncode == 1:
+        os.makedirs(os.path.join(here, "replays"), exist_ok=True)
+        path = os.path.join(here, "replays", "C04-bounded.json")
+        json.dump(dict(obligation="bounded:scheduling-independence", witness=info,
+                       replay_cmd="/venv/bin/python %s %s %d" % (os.path.join(here, "bounded", "dr_scheduling.py"), check.repo.root, n)),
+                  open(path, "w"), indent=1)
+        out["replay"] = path
+    return [out]
